@@ -393,7 +393,14 @@ func (t *taskTrace) Do(options ...DoOption) {
 	}
 
 	response := newDoOption(options...)
-	t.forward <- *response
+	// Only the first answer counts. The send must never block: once process()
+	// has taken an answer nobody reads forward again, so a blocking send would
+	// hang any further caller that passed the done check above before done
+	// was closed.
+	select {
+	case t.forward <- *response:
+	default:
+	}
 }
 
 func (t *taskTrace) process() {
